@@ -72,7 +72,7 @@ def parsedBase {β : Type} (T : Tables) (cls : MsgClass) (sm : SpecMsg) (fds : O
     attrs := applyFields T noAttrs (sm.fields.map fun f => (f.1, pyOf fds f.2)),
     body := none, serial := sm.serial,
     rawHeader := Spec.fixedPart sm (Spec.fieldArray sm).length ++ Spec.fieldArray sm,
-    rawPadding := Spec.headerPad sm, rawBody := sm.body }
+    rawPadding := Spec.headerPad sm, rawBody := sm.body, otherFlags := sm.flags / 4 * 4 }
 
 theorem parse_spec {β : Type} (T : Tables) (hT : T.OK) (C : BodyCodec β) (sm : SpecMsg) (hv : sm.encodable = true)
     (cls : MsgClass) (hcls : lookupClass T sm.mtype = some cls) (fds : Option (List PyVal))
